@@ -566,10 +566,11 @@ Lemma split_after_line : forall body cur T, forallb nolb body = true ->
   split_after (tok_is tLinebreak) cur (body ++ (tLinebreak, [10]) :: T) =
   (rev cur ++ body ++ [(tLinebreak, [10])]) :: split_after (tok_is tLinebreak) [] T.
 Proof.
-  induction body as [|t body IH]; intros cur T H; simpl in *.
+  induction body as [|t body IH]; intros cur T H.
   - reflexivity.
-  - apply andb_true_iff in H as [Ht Hb]. unfold nolb in Ht. apply negb_true_iff in Ht. rewrite Ht.
-    rewrite IH by assumption. simpl. rewrite <- app_assoc. reflexivity.
+  - cbn [forallb] in H. apply andb_true_iff in H as [Ht Hb]. unfold nolb in Ht. apply negb_true_iff in Ht.
+    cbn [app split_after]. rewrite Ht.
+    rewrite IH by assumption. cbn [rev]. rewrite <- app_assoc. reflexivity.
 Qed.
 
 Section TextProofs.
@@ -601,7 +602,9 @@ Lemma parses_line : forall tc l body e tc',
 Proof.
   intros tc l body e tc' Hl Hb Hp rest. unfold lines_of. rewrite Hl.
   rewrite split_after_line by assumption. simpl rev. simpl app at 1.
-  simpl run_lines. unfold Lfun at 1. rewrite Hp.
+  simpl run_lines.
+  change (Lfun tc [] (body ++ [(tLinebreak, [10])])) with (prom_line O tu tc (body ++ [(tLinebreak, [10])])).
+  rewrite Hp.
   fold (lines_of rest). now destruct (run_lines Lfun tc' [] (lines_of rest)).
 Qed.
 
@@ -647,8 +650,8 @@ Qed.
 Lemma nolb_head : forall nm its, forallb nolb (head_toks nm its) = true.
 Proof.
   intros nm its. unfold head_toks. destruct (is_legacy_name nm); destruct its as [|i r]; try reflexivity.
-  - simpl. rewrite forallb_app. rewrite nolb_items. reflexivity.
-  - simpl. rewrite forallb_app. rewrite nolb_items. reflexivity.
+  - cbn [forallb]. rewrite forallb_app, nolb_items. reflexivity.
+  - cbn [forallb]. rewrite forallb_app, nolb_items. reflexivity.
 Qed.
 
 Lemma sample_parses : forall tc nm ls extra its f ts,
@@ -666,3 +669,504 @@ Proof.
     apply prom_series_value. assumption.
 Qed.
 End TextProofs.
+
+(* ------------------------------------------------------------------ labels: parser vs spec *)
+Definition user_label_ok (tc : N) (l : lp) : Prop :=
+  ((tc =? 3) && bstr_eqb (fst l) s_quantile) || ((tc =? 4) && bstr_eqb (fst l) s_le) = false.
+
+Definition ts_ok' := ts_ok.
+
+Definition wf_metric (tc : N) (m : metric) : Prop :=
+  Forall item_ok (m_labels m) /\ Forall (user_label_ok tc) (m_labels m) /\ ts_ok (m_ts m).
+Definition fname_ok (n : bstr) : Prop := n <> [] /\ forallb plain n = true.
+Definition help_ok (h : bstr) : Prop :=
+  forallb clean h = true /\ existsb (fun c => negb (is_ws c)) h = true /\ utf8_valid (escape false h) = true.
+Definition wf_family (f : family) : Prop :=
+  fname_ok (f_name f) /\ match f_help f with Some h => help_ok h | None => True end /\
+  Forall (wf_metric (text_tcode (f_type f))) (f_metrics f).
+
+Lemma plain_no_bs : forall s, forallb plain s = true -> forallb (fun c => negb (c =? 92)) s = true.
+Proof. intros s. apply forallb_imp. intros c H. unfold plain in H. blia. Qed.
+
+Lemma unreplace_rawname : forall nm, unreplace true (rawname nm) = nm.
+Proof.
+  intros nm. unfold rawname. destruct (is_legacy_name nm) eqn:E.
+  - apply unreplace_plain. apply plain_no_bs. now apply legacy_name_plain.
+  - apply unreplace_escape_true.
+Qed.
+
+Lemma meta_name_write : forall n, fname_ok n -> meta_name (write_name n) = n.
+Proof.
+  intros n [Hne Hp]. unfold write_name. destruct (is_legacy_name n) eqn:E.
+  - destruct n as [|c r]; [congruence|]. simpl in E. apply andb_true_iff in E as [Hc _].
+    unfold meta_name. assert (c =? 34 = false) as -> by blia. reflexivity.
+  - rewrite (escape_plain true n Hp). unfold meta_name.
+    change (last (34 :: n ++ [34]) 0) with (last (34 :: (n ++ [34])) 0).
+    assert (Hl : last (34 :: (n ++ [34])) 0 = 34).
+    { change (34 :: (n ++ [34])) with ((34 :: n) ++ [34]). apply last_app1. }
+    rewrite Hl. simpl. apply strip_ends_quoted.
+Qed.
+
+Section TextProofs2.
+Variable O : oracles.
+Variable tu : bool.
+Hypothesis HO : oracle_ok O.
+
+Definition lrel (tc : N) (p s : lp) : Prop := fst p = fst s /\ normalize_lv O tc (fst p) (snd p) = snd s.
+
+Lemma parsed_eq : forall tc nm P S, Forall2 (lrel tc) P S ->
+  parsed_labels O tu tc [] (rawname nm) (map raw P) = series_labels tu nm tc [] S.
+Proof.
+  intros tc nm P S H. unfold parsed_labels, series_labels. rewrite unreplace_rawname.
+  f_equal. f_equal.
+  induction H as [|p s P S [H1 H2] HF IH]; [reflexivity|].
+  cbn [map flat_map filter]. rewrite IH. unfold raw. cbn [fst snd].
+  rewrite !unreplace_escape_true. rewrite H2, H1.
+  destruct tu; cbn [andb negb orb].
+  - destruct (is_empty_for nm tc [] (fst s)); cbn [negb app]; [destruct s; reflexivity|reflexivity].
+  - destruct s; reflexivity.
+Qed.
+
+Lemma lrel_user : forall tc l, Forall (user_label_ok tc) l -> Forall2 (lrel tc) l l.
+Proof.
+  intros tc l H. induction H as [|x l Hx Hl IH]; constructor; auto.
+  split; auto. unfold normalize_lv. unfold user_label_ok in Hx. now rewrite Hx.
+Qed.
+
+Lemma series_parses : forall tc name suffix m exP exS f,
+  name_ok (name ++ suffix) -> wf_metric tc m -> Forall item_ok exP -> Forall2 (lrel tc) exP exS ->
+  parses O tu tc (text_sample O name suffix m (map pair_item exP) f)
+         [mk_series tu name tc [] m suffix exS (canon_txt f) [] 0%Z] tc.
+Proof.
+  intros tc name suffix m exP exS f Hn (Hl & Hu & Hts) HeP HeS.
+  unfold text_sample, mk_series.
+  rewrite <- (parsed_eq tc (name ++ suffix) (m_labels m ++ exP) (m_labels m ++ exS))
+    by (apply Forall2_app; [now apply lrel_user|assumption]).
+  apply (sample_parses O tu HO tc (name ++ suffix) (m_labels m) (map pair_item exP) (m_labels m ++ exP) f (m_ts m)); auto.
+  - now rewrite map_app.
+  - apply Forall_app; auto.
+Qed.
+
+(* the le / quantile label written from a float *)
+Lemma extra_item_pair : forall en x, is_legacy_name en = true ->
+  extra_item en (o_ftext O x) = pair_item (en, o_ftext O x).
+Proof.
+  intros en x He. unfold extra_item, pair_item, write_name. cbn [fst snd]. rewrite He.
+  destruct (ok_shape O HO x) as [_ Hf]. destruct (forallb_fchar _ Hf) as (_ & Hp & _).
+  now rewrite (escape_plain true _ Hp).
+Qed.
+
+Lemma extra_item_ok : forall en x, is_legacy_name en = true -> legacy_l en = true -> item_ok (en, o_ftext O x).
+Proof.
+  intros en x He Hl. destruct (ok_shape O HO x) as [_ Hf]. destruct (forallb_fchar _ Hf) as (_ & Hp & Ha & _).
+  unfold item_ok, lname_ok. cbn [fst snd]. rewrite He. repeat split; auto.
+  - now apply plain_clean.
+  - now apply quoted_plain_ascii_utf8.
+Qed.
+
+Lemma extra_rel : forall tc en x, (tc = 3 /\ en = s_quantile) \/ (tc = 4 /\ en = s_le) ->
+  Forall2 (lrel tc) [(en, o_ftext O x)] [(en, o_fom O x)].
+Proof.
+  intros tc en x H. constructor; [|constructor]. split; auto. cbn [fst snd]. unfold normalize_lv.
+  destruct H as [[-> ->]|[-> ->]]; cbn; now rewrite (ok_norm O HO x).
+Qed.
+
+Lemma name_ok_suffix : forall n suf, fname_ok n -> forallb clean suf = true -> name_ok (n ++ suf).
+Proof.
+  intros n suf [Hne Hp] Hs. split.
+  - destruct n; [congruence|discriminate].
+  - rewrite forallb_app, Hs, (plain_clean n Hp). reflexivity.
+Qed.
+
+(* ---- HELP and TYPE lines *)
+Lemma write_name_head : forall n, fname_ok n -> exists c w, write_name n = c :: w /\ is_ws c = false.
+Proof.
+  intros n [Hne Hp]. unfold write_name. destruct (is_legacy_name n) eqn:E.
+  - destruct n as [|c r]; [congruence|]. exists c, r. split; auto. simpl in E. apply andb_true_iff in E as [Hc _]. blia.
+  - exists 34, (escape true n ++ [34]). split; reflexivity.
+Qed.
+
+Lemma ft_meta_name : forall n Y, fname_ok n ->
+  ftoks sMeta1 (write_name n ++ 32 :: Y) = (tMName, write_name n) :: ftoks sMeta2 (32 :: Y).
+Proof.
+  intros n Y [Hne Hp]. unfold write_name. destruct (is_legacy_name n) eqn:E.
+  - now apply ft_mname_meta.
+  - fold (quoted n). apply (ft_quoted sMeta1 tMName sMeta2); auto. now apply plain_clean.
+Qed.
+
+Lemma existsb_nonws_escape : forall q h, existsb (fun c => negb (is_ws c)) h = true ->
+  existsb (fun c => negb (is_ws c)) (escape q h) = true.
+Proof.
+  induction h as [|c h IH]; simpl; [discriminate|]. intros H. rewrite existsb_app.
+  apply orb_true_iff in H as [H|H].
+  - apply orb_true_iff; left. unfold esc_char.
+    destruct (c =? 92); [reflexivity|]. destruct (c =? 10); [reflexivity|].
+    destruct (q && (c =? 34)); [reflexivity|]. simpl. now rewrite H.
+  - rewrite (IH H). apply orb_true_r.
+Qed.
+
+Lemma meta_line_parses : forall tc kw ktok n body e tc',
+  fname_ok n ->
+  (kw = s_HELP /\ ktok = tHelp) \/ (kw = s_TYPE /\ ktok = tType) ->
+  forallb not_nl body = true -> existsb (fun c => negb (is_ws c)) body = true ->
+  prom_line O tu tc [(ktok, hash_sp ++ kw ++ [32]); (tMName, write_name n); (tText, 32 :: body); (tLinebreak, [10])]
+    = LEntry e tc' [] ->
+  parses O tu tc (hash_sp ++ kw ++ [32] ++ write_name n ++ [32] ++ body ++ [10]) [e] tc'.
+Proof.
+  intros tc kw ktok n body e tc' Hn Hk Hb1 Hb2 Hp.
+  apply parses_line with (body := [(ktok, hash_sp ++ kw ++ [32]); (tMName, write_name n); (tText, 32 :: body)]).
+  - intros rest. destruct (write_name_head n Hn) as (c & w & Hw & Hc).
+    repeat rewrite <- app_assoc.
+    change ([32] ++ write_name n ++ [32] ++ body ++ [10] ++ rest) with (32 :: (write_name n ++ 32 :: body ++ 10 :: rest)).
+    rewrite Hw at 1. cbn [app].
+    destruct Hk as [[-> ->]|[-> ->]].
+    + rewrite ft_help by assumption.
+      change (c :: w ++ 32 :: body ++ 10 :: rest) with ((c :: w) ++ 32 :: body ++ 10 :: rest). rewrite <- Hw.
+      rewrite ft_meta_name by assumption. rewrite ft_text by assumption. rewrite ft_lb_init. reflexivity.
+    + rewrite ft_type by assumption.
+      change (c :: w ++ 32 :: body ++ 10 :: rest) with ((c :: w) ++ 32 :: body ++ 10 :: rest). rewrite <- Hw.
+      rewrite ft_meta_name by assumption. rewrite ft_text by assumption. rewrite ft_lb_init. reflexivity.
+  - destruct Hk as [[-> ->]|[-> ->]]; reflexivity.
+  - exact Hp.
+Qed.
+End TextProofs2.
+
+(* ------------------------------------------------------------------ metrics, families, the round trip *)
+Section TextProofs3.
+Variable O : oracles.
+Variable tu : bool.
+Hypothesis HO : oracle_ok O.
+
+Lemma help_line : forall tc n h, fname_ok n -> help_ok h ->
+  parses O tu tc (hash_sp ++ s_HELP ++ [32] ++ write_name n ++ [32] ++ escape false h ++ [10]) [OH n h] tc.
+Proof.
+  intros tc n h Hn (Hc & Hw & Hu).
+  apply (meta_line_parses O tu tc s_HELP tHelp); auto.
+  - now apply escape_not_nl.
+  - now apply existsb_nonws_escape.
+  - unfold prom_line. cbn [tok_is fst tl]. rewrite Hu. cbn [ends_lb tok_is fst].
+    rewrite meta_name_write by assumption. now rewrite unreplace_escape_false.
+Qed.
+
+Lemma type_line : forall tc n t, fname_ok n ->
+  parses O tu tc (hash_sp ++ s_TYPE ++ [32] ++ write_name n ++ [32] ++ text_type_word t ++ [10])
+         [OT n (text_tcode t)] (text_tcode t).
+Proof.
+  intros tc n t Hn.
+  apply (meta_line_parses O tu tc s_TYPE tType); auto.
+  - destruct t; reflexivity.
+  - destruct t; reflexivity.
+  - unfold prom_line. cbn [tok_is fst tl]. rewrite meta_name_write by assumption.
+    destruct t; reflexivity.
+Qed.
+
+Lemma parses_flat_map : forall {A} tc (l : list A) (pb : A -> bstr) (pe : A -> entry),
+  (forall a, In a l -> parses O tu tc (pb a) [pe a] tc) -> parses O tu tc (flat_map pb l) (map pe l) tc.
+Proof.
+  intros A tc l pb pe H. induction l as [|a l IH]; simpl.
+  - apply parses_nil.
+  - change (pe a :: map pe l) with ([pe a] ++ map pe l). eapply parses_app.
+    + apply H. now left.
+    + apply IH. intros b Hb. apply H. now right.
+Qed.
+
+Lemma le_legacy : is_legacy_name s_le = true /\ legacy_l s_le = true /\
+                  is_legacy_name s_quantile = true /\ legacy_l s_quantile = true.
+Proof. repeat split; reflexivity. Qed.
+
+Lemma plain_line : forall tc n suffix m f, fname_ok n -> forallb clean suffix = true -> wf_metric tc m ->
+  parses O tu tc (text_sample O n suffix m [] f) [mk_series tu n tc [] m suffix [] (canon_txt f) [] 0%Z] tc.
+Proof.
+  intros tc n suffix m f Hn Hs Hm.
+  apply (series_parses O tu HO tc n suffix m [] [] f); auto.
+  now apply name_ok_suffix.
+Qed.
+
+Lemma extra_line : forall tc n suffix m en x f, fname_ok n -> forallb clean suffix = true -> wf_metric tc m ->
+  (tc = 3 /\ en = s_quantile) \/ (tc = 4 /\ en = s_le) ->
+  parses O tu tc (text_sample O n suffix m [extra_item en (o_ftext O x)] f)
+         [mk_series tu n tc [] m suffix [(en, o_fom O x)] (canon_txt f) [] 0%Z] tc.
+Proof.
+  intros tc n suffix m en x f Hn Hs Hm He.
+  assert (Hl : is_legacy_name en = true /\ legacy_l en = true).
+  { destruct He as [[_ ->]|[_ ->]]; split; reflexivity. }
+  destruct Hl as [Hl1 Hl2].
+  rewrite (extra_item_pair O HO en x Hl1).
+  change [pair_item (en, o_ftext O x)] with (map pair_item [(en, o_ftext O x)]).
+  apply (series_parses O tu HO tc n suffix m [(en, o_ftext O x)] [(en, o_fom O x)] f); auto.
+  - now apply name_ok_suffix.
+  - constructor; [|constructor]. now apply extra_item_ok.
+  - now apply extra_rel.
+Qed.
+
+Lemma metric_parses : forall n t m, fname_ok n -> wf_metric (text_tcode t) m ->
+  parses O tu (text_tcode t) (print_text_metric O n t m) (text_metric O tu n t m) (text_tcode t).
+Proof.
+  intros n t m Hn Hm.
+  assert (Hsimple : parses O tu (text_tcode t) (text_sample O n [] m [] (m_val m))
+                      [mk_series tu n (text_tcode t) [] m [] [] (canon_txt (m_val m)) [] 0%Z] (text_tcode t))
+    by (apply plain_line; auto).
+  assert (Hsum : parses O tu (text_tcode t) (text_sample O n s_sum m [] (m_sum m))
+                      [mk_series tu n (text_tcode t) [] m s_sum [] (canon_txt (m_sum m)) [] 0%Z] (text_tcode t))
+    by (apply plain_line; auto).
+  assert (Hcnt : parses O tu (text_tcode t) (text_sample O n s_count m [] (o_u2f O (m_count m)))
+                      [mk_series tu n (text_tcode t) [] m s_count [] (canon_txt (o_u2f O (m_count m))) [] 0%Z] (text_tcode t))
+    by (apply plain_line; auto).
+  assert (Htail : parses O tu (text_tcode t)
+                    (text_sample O n s_sum m [] (m_sum m) ++ text_sample O n s_count m [] (o_u2f O (m_count m)))
+                    ([mk_series tu n (text_tcode t) [] m s_sum [] (canon_txt (m_sum m)) [] 0%Z] ++
+                     [mk_series tu n (text_tcode t) [] m s_count [] (canon_txt (o_u2f O (m_count m))) [] 0%Z])
+                    (text_tcode t))
+    by (eapply parses_app; eauto).
+  destruct t; try exact Hsimple.
+  - (* summary *)
+    unfold print_text_metric, text_metric. eapply parses_app; [|exact Htail].
+    apply (parses_flat_map 3 (m_q m)
+             (fun q => text_sample O n [] m [extra_item s_quantile (o_ftext O (fst q))] (snd q))
+             (fun q => mk_series tu n 3 [] m [] [(s_quantile, o_fom O (fst q))] (canon_txt (snd q)) [] 0%Z)).
+    intros q _. apply extra_line; auto.
+  - (* histogram *)
+    unfold print_text_metric, text_metric. eapply parses_app.
+    + apply (parses_flat_map 4 (m_b m)
+             (fun b => text_sample O n s_bucket m [extra_item s_le (o_ftext O (bk_ub b))] (o_u2f O (bk_cnt b)))
+             (fun b => mk_series tu n 4 [] m s_bucket [(s_le, o_fom O (bk_ub b))] (canon_txt (o_u2f O (bk_cnt b))) [] 0%Z)).
+      intros b _. apply extra_line; auto.
+    + eapply parses_app; [|exact Htail].
+      destruct (has_inf_bucket (m_b m)); [apply parses_nil|]. apply extra_line; auto.
+  - (* gauge histogram: written as histogram *)
+    unfold print_text_metric, text_metric. eapply parses_app.
+    + apply (parses_flat_map 4 (m_b m)
+             (fun b => text_sample O n s_bucket m [extra_item s_le (o_ftext O (bk_ub b))] (o_u2f O (bk_cnt b)))
+             (fun b => mk_series tu n 4 [] m s_bucket [(s_le, o_fom O (bk_ub b))] (canon_txt (o_u2f O (bk_cnt b))) [] 0%Z)).
+      intros b _. apply extra_line; auto.
+    + eapply parses_app; [|exact Htail].
+      destruct (has_inf_bucket (m_b m)); [apply parses_nil|]. apply extra_line; auto.
+Qed.
+
+Lemma family_parses : forall tc f, wf_family f ->
+  parses O tu tc (print_text_family O f) (text_family O tu f) (text_tcode (f_type f)).
+Proof.
+  intros tc f (Hn & Hh & Hm). unfold print_text_family, text_family.
+  assert (Hms : parses O tu (text_tcode (f_type f)) (flat_map (print_text_metric O (f_name f) (f_type f)) (f_metrics f))
+                  (flat_map (text_metric O tu (f_name f) (f_type f)) (f_metrics f)) (text_tcode (f_type f))).
+  { induction Hm as [|m ms Hm1 Hms IH]; simpl; [apply parses_nil|].
+    eapply parses_app; [now apply metric_parses|exact IH]. }
+  assert (Hty := type_line tc (f_name f) (f_type f) Hn).
+  replace (hash_sp ++ s_TYPE ++ [32] ++ write_name (f_name f) ++ [32] ++ text_type_word (f_type f) ++ [10] ++
+           flat_map (print_text_metric O (f_name f) (f_type f)) (f_metrics f))
+    with ((hash_sp ++ s_TYPE ++ [32] ++ write_name (f_name f) ++ [32] ++ text_type_word (f_type f) ++ [10]) ++
+           flat_map (print_text_metric O (f_name f) (f_type f)) (f_metrics f))
+    by (repeat rewrite <- app_assoc; reflexivity).
+  destruct (f_help f) as [h|]; simpl opt_list; simpl map.
+  - eapply parses_app; [now apply help_line|]. eapply parses_app; [exact Hty|exact Hms].
+  - rewrite !app_nil_l. eapply parses_app; [exact Hty|exact Hms].
+Qed.
+
+Lemma families_parse : forall fams tc, Forall wf_family fams ->
+  exists tc', parses O tu tc (print_text O fams) (entries_text O tu fams) tc'.
+Proof.
+  induction fams as [|f fams IH]; intros tc H.
+  - exists tc. apply parses_nil.
+  - inversion H as [|? ? Hf Hfs]; subst. destruct (IH (text_tcode (f_type f)) Hfs) as [tc' Hp].
+    exists tc'. unfold print_text, entries_text. simpl. eapply parses_app; [now apply family_parses|exact Hp].
+Qed.
+
+Theorem text_roundtrip : forall fams, Forall wf_family fams ->
+  parse_text O tu (print_text O fams) = (entries_text O tu fams, true).
+Proof.
+  intros fams H. destruct (families_parse fams 0 H) as [tc' Hp].
+  unfold parse_text.
+  change (split_after (tok_is tLinebreak) [] (filter not_ws_tok (toks lex_prom' 0 sInit (print_text O fams ++ [10]))))
+    with (lines_of (print_text O fams ++ [10])).
+  change (run_lines (fun (tc : N) (_ : bstr) (l : list tok) => prom_line O tu tc l) 0 [])
+    with (run_lines (Lfun O tu) 0 []).
+  rewrite (Hp [10]).
+  assert (Hend : run_lines (Lfun O tu) tc' [] (lines_of [10]) = ([], true)) by reflexivity.
+  rewrite Hend. simpl. now rewrite app_nil_r.
+Qed.
+End TextProofs3.
+
+(* ------------------------------------------------------------------ the oracle assumptions are satisfiable *)
+(* a toy (unary) number syntax within the float alphabet; only used to show consistency of
+   [oracle_ok] and as the concrete oracle of the examples / refutation witnesses *)
+Definition un (z : Z) : bstr := (if (z <? 0)%Z then [45] else []) ++ repeat 49 (S (Z.abs_nat z)).
+Definition un_parse (s : bstr) : option Z :=
+  match s with
+  | c :: r => if c =? 45 then Some (- (Z.of_nat (length r) - 1))%Z else Some (Z.of_nat (length s) - 1)%Z
+  | [] => None
+  end.
+Definition toy_oracle : oracles :=
+  mkOr (fun f => un (canon_txt f)) (fun f => un (canon_txt f)) un (fun z => z) (fun z => z) (fun z => z)
+       un_parse (fun s => Some s) (fun _ => None) un_parse.
+
+Lemma un_parse_un : forall z, un_parse (un z) = Some z.
+Proof.
+  intros z. unfold un, un_parse. destruct (z <? 0)%Z eqn:E.
+  - apply Z.ltb_lt in E. simpl. rewrite repeat_length. f_equal. lia.
+  - apply Z.ltb_ge in E. simpl. rewrite repeat_length. f_equal. lia.
+Qed.
+
+Lemma forallb_repeat : forall (p : N -> bool) c n, p c = true -> forallb p (repeat c n) = true.
+Proof. induction n; simpl; intros; auto. rewrite H. auto. Qed.
+
+Lemma canon_nan_idem : forall x, canon_nan (canon_nan x) = canon_nan x.
+Proof. intros x. unfold canon_nan at 2. destruct (is_nan x) eqn:E; [reflexivity|]. unfold canon_nan. now rewrite E. Qed.
+
+Lemma oracle_ok_satisfiable : exists O, oracle_ok O.
+Proof.
+  exists toy_oracle. constructor; simpl.
+  - intros f. split.
+    + unfold un. destruct (canon_txt f <? 0)%Z; discriminate.
+    + unfold un. rewrite forallb_app. rewrite forallb_repeat by reflexivity.
+      destruct (canon_txt f <? 0)%Z; reflexivity.
+  - intros f. exists (canon_txt f). split; [apply un_parse_un|]. unfold canon_txt. apply canon_nan_idem.
+  - reflexivity.
+  - intros z Hz. repeat split.
+    + unfold un. destruct (z <? 0)%Z; discriminate.
+    + unfold un. assert ((z <? 0)%Z = false) as -> by (apply Z.ltb_ge; lia). simpl app.
+      apply forallb_repeat. reflexivity.
+    + apply un_parse_un.
+Qed.
+
+Definition example_fams : list family :=
+  [mkFam [104;116;116;112;46;114;101;113] (Some [82;101;113;117;101;115;116;115;46]) None MHist
+     [mkMet [([99;111;100;101], [97;34;98;92;99;10;100]); ([108;46;120], [195;169])] (Some 5%Z) 0%Z None None 3%Z 7%Z []
+            [mkBk 2%Z 1%Z None; mkBk 4%Z 3%Z None] None];
+   mkFam [117;112] None None MGauge [mkMet [] None 1%Z None None 0%Z 0%Z [] [] None]].
+
+Lemma example_fams_wf : Forall wf_family example_fams /\ length (entries_text toy_oracle true example_fams) = 9%nat.
+Proof.
+  split; [|reflexivity].
+  repeat constructor; try reflexivity; try discriminate.
+  unfold ts_ok. simpl. lia.
+Qed.
+
+Lemma example_roundtrip_computes :
+  parse_text toy_oracle true (print_text toy_oracle example_fams) = (entries_text toy_oracle true example_fams, true).
+Proof. vm_compute. reflexivity. Qed.
+
+(* ------------------------------------------------------------------ formats agree: OpenMetrics vs text *)
+Definition no_om_exemplars (f : family) : Prop :=
+  Forall (fun m => om_ex (m_ex m) = [] /\ Forall (fun b => om_ex (bk_ex b) = []) (m_b m)) (f_metrics f).
+
+Lemma flat_map_ext_in : forall {A B} (f g : A -> list B) l, (forall a, In a l -> f a = g a) -> flat_map f l = flat_map g l.
+Proof. induction l as [|a l IH]; simpl; intros H; auto. rewrite (H a) by now left. rewrite IH; auto. intros b Hb. apply H. now right. Qed.
+
+Lemma om_series_agree_text : forall (O : oracles) (o : opts) (f : family),
+  o_typeunit o = false -> o_created o = false -> no_om_exemplars f ->
+  flat_map (om_metric O o f) (f_metrics f) = flat_map (text_metric O false (f_name f) (f_type f)) (f_metrics f).
+Proof.
+  intros O o f Htu Hcr Hex. apply flat_map_ext_in. intros m Hm.
+  unfold no_om_exemplars in Hex. rewrite Forall_forall in Hex. destruct (Hex m Hm) as [He Hb].
+  unfold om_metric, text_metric. rewrite Htu, Hcr. rewrite !andb_false_r.
+  assert (Hc : match m_created m with Some _ => @nil entry | None => [] end = []) by (destruct (m_created m); reflexivity).
+  destruct (f_type f); cbn [andb]; rewrite ?He.
+  - destruct (m_created m); reflexivity.
+  - reflexivity.
+  - destruct (m_created m); rewrite ?app_nil_r; reflexivity.
+  - reflexivity.
+  - assert (Hmap : map (fun b => mk_series false (f_name f) (om_tcode f) (opt_bstr (f_unit f)) m s_bucket
+                                 [(s_le, o_fom O (bk_ub b))] (canon_txt (o_u2f O (bk_cnt b))) (om_ex (bk_ex b)) 0%Z) (m_b m) =
+                   map (fun b => mk_series false (f_name f) (text_tcode MHist) [] m s_bucket
+                                 [(s_le, o_fom O (bk_ub b))] (canon_txt (o_u2f O (bk_cnt b))) [] 0%Z) (m_b m)).
+    { apply map_ext_in. intros b Hbin. rewrite Forall_forall in Hb. rewrite (Hb b Hbin). reflexivity. }
+    destruct (m_created m); rewrite ?app_nil_r; cbv beta; rewrite Hmap; reflexivity.
+  - assert (Hmap : map (fun b => mk_series false (f_name f) (om_tcode f) (opt_bstr (f_unit f)) m s_bucket
+                                 [(s_le, o_fom O (bk_ub b))] (canon_txt (o_u2f O (bk_cnt b))) (om_ex (bk_ex b)) 0%Z) (m_b m) =
+                   map (fun b => mk_series false (f_name f) (text_tcode MGHist) [] m s_bucket
+                                 [(s_le, o_fom O (bk_ub b))] (canon_txt (o_u2f O (bk_cnt b))) [] 0%Z) (m_b m)).
+    { apply map_ext_in. intros b Hbin. rewrite Forall_forall in Hb. rewrite (Hb b Hbin). reflexivity. }
+    destruct (m_created m); rewrite ?app_nil_r; cbv beta; rewrite Hmap; reflexivity.
+Qed.
+
+(* ------------------------------------------------------------------ protobuf: state machine vs per-metric spec *)
+Lemma proto_hist_run_classic : forall O o f ms how, how <> PUnchecked ->
+  Forall (fun m => native_on o m = false) ms ->
+  proto_hist_run O o f how ms = flat_map (proto_classic O o f) ms.
+Proof.
+  induction ms as [|m ms IH]; intros how Hh H; [reflexivity|].
+  inversion H as [|? ? Hm Hms]; subst. cbn [proto_hist_run flat_map]. unfold proto_hist_step. rewrite Hm.
+  destruct how; try congruence; cbn; rewrite IH; auto; discriminate.
+Qed.
+
+Lemma proto_metric_classic : forall O o f m, (f_type f = MHist \/ f_type f = MGHist) -> native_on o m = false ->
+  proto_metric O o f m = proto_classic O o f m.
+Proof.
+  intros O o f m Ht Hn. unfold proto_metric. rewrite Hn.
+  destruct Ht as [-> | ->]; destruct (m_nh m); reflexivity.
+Qed.
+
+Lemma proto_model_meets_spec : forall (O : oracles) (o : opts) (fams : list family),
+  Forall (fun f => Forall (fun m => native_on o m = false) (f_metrics f)) fams ->
+  model_proto O o fams = entries_proto O o fams.
+Proof.
+  intros O o fams H. unfold model_proto, entries_proto. apply flat_map_ext_in. intros f Hf.
+  rewrite Forall_forall in H. specialize (H f Hf).
+  unfold model_proto_family, proto_family. destruct (is_nil (f_metrics f)); [reflexivity|].
+  do 3 f_equal.
+  destruct (f_type f) eqn:Et; try reflexivity.
+  - rewrite proto_hist_run_classic by (auto; discriminate). apply flat_map_ext_in. intros m Hm.
+    rewrite Forall_forall in H. symmetry. apply proto_metric_classic; auto.
+  - rewrite proto_hist_run_classic by (auto; discriminate). apply flat_map_ext_in. intros m Hm.
+    rewrite Forall_forall in H. symmetry. apply proto_metric_classic; auto.
+Qed.
+
+(* ------------------------------------------------------------------ refutations (witnesses replayed by the harness corpus) *)
+Definition m0 : metric := mkMet [] None 1%Z None None 0%Z 0%Z [] [] None.
+Definition o0 : opts := mkOpts false false false false false.
+
+Lemma text_negative_timestamp_refuted : exists O fams tu,
+  parse_text O tu (print_text O fams) <> (entries_text O tu fams, true).
+Proof.
+  exists toy_oracle, [mkFam [117;112] None None MGauge [mkMet [] (Some (-1)%Z) 1%Z None None 0%Z 0%Z [] [] None]], false.
+  intro H. apply (f_equal snd) in H. vm_compute in H. discriminate.
+Qed.
+
+Lemma text_blank_help_refuted : exists O fams tu,
+  parse_text O tu (print_text O fams) <> (entries_text O tu fams, true).
+Proof.
+  exists toy_oracle, [mkFam [117;112] (Some [32]) None MGauge [m0]], false.
+  intro H. apply (f_equal fst) in H. vm_compute in H. discriminate.
+Qed.
+
+Lemma quoted_name_metadata_refuted : exists O fams tu,
+  parse_text O tu (print_text O fams) <> (entries_text O tu fams, true).
+Proof.
+  exists toy_oracle, [mkFam [97;34;98] None None MGauge [m0]], false.
+  intro H. apply (f_equal fst) in H. vm_compute in H. discriminate.
+Qed.
+
+Lemma om_exemplar_escape_refuted : exists O o fams,
+  parse_om O o (print_om O o fams) <> (entries_om O o fams, true).
+Proof.
+  exists toy_oracle, o0,
+    [mkFam ([120] ++ s_total) None None MCounter
+       [mkMet [] None 1%Z (Some (mkEx [([116], [97;34;98])] 2%Z None)) None 0%Z 0%Z [] [] None]].
+  intro H. apply (f_equal fst) in H. vm_compute in H. discriminate.
+Qed.
+
+Lemma om_unit_leak_refuted : exists O o fams,
+  parse_om O o (print_om O o fams) <> (entries_om O o fams, true).
+Proof.
+  exists toy_oracle, (mkOpts true false false false false),
+    [mkFam [97;95;115] None (Some [115]) MGauge [m0]; mkFam [98] None None MGauge [m0]].
+  intro H. apply (f_equal fst) in H. vm_compute in H. discriminate.
+Qed.
+
+Definition nh1 : nhist := mkNH 1%Z 0%Z 2%Z [(1%Z, 2%Z)] [3%Z; (-1)%Z] [] [].
+Definition mcl (k : N) : metric := mkMet [([107], [k])] None 0%Z None None 7%Z 1%Z [] [mkBk 2%Z 2%Z None] None.
+Definition mnat (k : N) : metric := mkMet [([107], [k])] None 0%Z None None 7%Z 1%Z [] [mkBk 2%Z 2%Z None] (Some nh1).
+
+Lemma proto_native_after_classic_refuted : exists O o fams,
+  model_proto O o fams <> entries_proto O o fams.
+Proof.
+  exists toy_oracle, o0, [mkFam [104] None None MHist [mcl 97; mnat 98]].
+  intro H. vm_compute in H. discriminate.
+Qed.
+
+Lemma proto_nil_histogram_refuted : exists O o fams,
+  In (nil_hist) (flat_map (fun e => match e with OX _ h _ _ _ => [h] | _ => [] end) (model_proto O o fams)).
+Proof.
+  exists toy_oracle, (mkOpts false false false false true), [mkFam [104] None None MHist [mnat 97; mcl 98]].
+  vm_compute. right. left. reflexivity.
+Qed.
